@@ -432,6 +432,15 @@ def encodeAfter (c : EncCfg) (items : Items) : Items :=
 
 def charAllowedE (g : Grammar) (ch : Nat) : Bool := inRanges g.allowed ch
 
+/-- the END line: the grammar's end statement, plus the delimiter when configured -/
+def endLine (c : EncCfg) : Str := (match c.g.endStatements with | e :: _ => e | [] => []) ++ delim c
+
+/-- what happens to the swept text afterwards: ODL-family encoders add the line end, PDS3 replaces tabs -/
+def finish (c : EncCfg) (s0 : Str) : Str :=
+  let s := if isOdlFamily c then s0 ++ c.newline else s0
+  if c.kind == .pds && c.tabReplace > 0
+  then s.flatMap (fun ch => if ch == 9 then List.replicate c.tabReplace 32 else [ch]) else s
+
 /-- the text `encoder.encode(module)` returns, or its refusal -/
 def encodeOut (c : EncCfg) (items : Items) : Except EErr Str :=
   let conv : Except EErr Items := if c.kind == .pds then pdsConvert c items else .ok items
@@ -439,18 +448,13 @@ def encodeOut (c : EncCfg) (items : Items) : Except EErr Str :=
   | .error e => .error e
   | .ok items' =>
     let fuel := sizeOf' (items'.length + 64) items' + 64
-    let endLine := (match c.g.endStatements with | e :: _ => e | [] => []) ++ delim c
     match encodeModule c items' 0 fuel with
     | .error e => .error e
     | .ok body =>
-      let s := join c.newline [body, endLine]
       -- final sweep; the message construction `s[i - 5, i + 5]` raises TypeError
-      if !(s.all (charAllowedE c.g)) then .error .type
-      else
-        let s := if isOdlFamily c then s ++ c.newline else s
-        let s := if c.kind == .pds && c.tabReplace > 0
-          then s.flatMap (fun ch => if ch == 9 then List.replicate c.tabReplace 32 else [ch]) else s
-        .ok s
+      if (join c.newline [body, endLine c]).all (charAllowedE c.g) then
+        .ok (finish c (join c.newline [body, endLine c]))
+      else .error .type
 
 /-- `encoder.encode(module)` -/
 def encode (c : EncCfg) (items : Items) : EncResult := ⟨encodeOut c items, encodeAfter c items⟩
